@@ -390,26 +390,27 @@ func c02num(w int) uint64 {
 	return v
 }
 
-// c02set builds a number set of 1..2 ranges with windowed symbolic endpoints; star adds
-// an open-ended range.
+// c02set builds a number set: one range with windowed symbolic endpoints (optionally
+// open-ended), optionally a second, concrete range in the middle of the number space.
 func c02set(uid bool, w int) imap.NumSet {
-	n := 1 + nd.Choice(2)
 	var ss imap.SeqSet
 	var us imap.UIDSet
-	for i := 0; i < n; i++ {
-		a := uint32(c02num(w))
-		b := uint32(c02num(w))
-		if i == n-1 && nd.Bool() {
-			b = 0
-		}
-		if uid {
-			us.AddRange(imap.UID(a), imap.UID(b))
-		} else {
-			ss.AddRange(a, b)
-		}
+	a := uint32(c02num(w))
+	b := uint32(c02num(w))
+	if nd.Bool() {
+		b = 0
 	}
+	extra := nd.Bool()
 	if uid {
+		us.AddRange(imap.UID(a), imap.UID(b))
+		if extra {
+			us.AddRange(1000, 2000)
+		}
 		return us
+	}
+	ss.AddRange(a, b)
+	if extra {
+		ss.AddRange(1000, 2000)
 	}
 	return ss
 }
@@ -604,8 +605,14 @@ func VerifC02List() {
 	scfg, en := c02cfg()
 	k := nd.Param("k")
 	c, vc := c02client(scfg, en)
-	ref := c02mailbox(nd.Param("kref"))
-	pat := c02mailbox(k)
+	var ref, pat string
+	if nd.Param("opts") == 1 {
+		// the option subsets are explored with concrete names (the names with nil options)
+		ref, pat = "r", "p%"
+	} else {
+		ref = c02mailbox(nd.Param("kref"))
+		pat = c02mailbox(k)
+	}
 	nd.Assume(len(pat) > 0)
 	var opts *imap.ListOptions
 	if nd.Param("opts") == 1 {
@@ -622,7 +629,7 @@ func VerifC02List() {
 	nd.Assert(c02tagged(out) == "OK", "command-not-completed-ok")
 	call := sess.calls[0]
 	nd.Assert(c02mboxEq(call.s1, ref), "list-reference-altered")
-	nd.Assert(len(call.strs) == 1 && call.strs[0] == pat, "list-pattern-altered")
+	nd.Assert(len(call.strs) == 1 && c02mboxEq(call.strs[0], pat), "list-pattern-altered")
 	want := imap.ListOptions{}
 	if opts != nil {
 		want = *opts
@@ -642,7 +649,7 @@ func c02partial() *imap.SectionPartial {
 	if !nd.Bool() {
 		return nil
 	}
-	p := &imap.SectionPartial{Offset: int64(c02num(2 + nd.Choice(3))), Size: int64(c02num(2 + nd.Choice(3)))}
+	p := &imap.SectionPartial{Offset: int64(c02num(2 + nd.Choice(nd.Param("pw")))), Size: int64(c02num(2 + nd.Choice(nd.Param("pw"))))}
 	nd.Assume(p.Size > 0)
 	return p
 }
@@ -684,15 +691,34 @@ func VerifC02Fetch() {
 	k := nd.Param("k")
 	c, vc := c02client(scfg, en)
 	uid := nd.Bool()
-	set := c02set(uid, nd.Choice(2))
-	o := &imap.FetchOptions{Envelope: nd.Bool(), Flags: nd.Bool(), InternalDate: nd.Bool(), RFC822Size: nd.Bool(), UID: nd.Bool()}
-	switch nd.Choice(3) {
-	case 1:
-		o.BodyStructure = &imap.FetchItemBodyStructure{}
-	case 2:
-		o.BodyStructure = &imap.FetchItemBodyStructure{Extended: true}
-	}
 	sect := nd.Param("sect")
+	var set imap.NumSet
+	o := &imap.FetchOptions{}
+	if sect == 8 {
+		// the message set is the symbolic part, the item list is fixed
+		set = c02set(uid, nd.Choice(2))
+		o.Flags = true
+		sect = 0
+	} else {
+		if uid {
+			set = imap.UIDSetNum(2, 3, 4, 9)
+		} else {
+			set = imap.SeqSetNum(2, 3, 4, 9)
+		}
+		if sect == 0 {
+			// every subset of the scalar items
+			o = &imap.FetchOptions{Envelope: nd.Bool(), Flags: nd.Bool(), InternalDate: nd.Bool(), RFC822Size: nd.Bool(), UID: nd.Bool()}
+			switch nd.Choice(3) {
+			case 1:
+				o.BodyStructure = &imap.FetchItemBodyStructure{}
+			case 2:
+				o.BodyStructure = &imap.FetchItemBodyStructure{Extended: true}
+			}
+		} else {
+			// section items next to one fixed scalar item
+			o.RFC822Size = nd.Bool()
+		}
+	}
 	if sect&1 != 0 {
 		bs := &imap.FetchItemBodySection{Peek: nd.Bool()}
 		bs.Part = c02parts[nd.Choice(len(c02parts))]
@@ -768,7 +794,20 @@ func VerifC02Store() {
 	scfg, en := c02cfg()
 	c, vc := c02client(scfg, en)
 	uid := nd.Bool()
-	set := c02set(uid, nd.Choice(2))
+	// (message sets with symbolic endpoints are exercised by COPY/MOVE, FETCH and UID
+	// EXPUNGE: the same Encoder.NumSet / ExpectNumSet pair)
+	var set imap.NumSet
+	if uid {
+		var us imap.UIDSet
+		us.AddRange(3, 0)
+		us.AddNum(1)
+		set = us
+	} else {
+		var ss imap.SeqSet
+		ss.AddRange(4, 7)
+		ss.AddNum(4294967295)
+		set = ss
+	}
 	sf := &imap.StoreFlags{Op: []imap.StoreFlagsOp{imap.StoreFlagsSet, imap.StoreFlagsAdd, imap.StoreFlagsDel}[nd.Choice(3)], Silent: nd.Bool(), Flags: c02flags(2)}
 	wire := c02write(c, vc, func() { c.Store(set, sf, nil) })
 	sess, out := c02serve(scfg, en, 2, wire)
@@ -857,8 +896,8 @@ func VerifC02Search() {
 	if mask&1 != 0 {
 		if nd.Bool() {
 			w.SeqNum = []imap.SeqSet{c02set(false, nd.Choice(2)).(imap.SeqSet)}
-		}
-		if nd.Bool() {
+			w.UID = []imap.UIDSet{imap.UIDSetNum(5, 6)}
+		} else {
 			w.UID = []imap.UIDSet{c02set(true, nd.Choice(2)).(imap.UIDSet)}
 		}
 	}
@@ -891,7 +930,7 @@ func VerifC02Search() {
 	}
 	if mask&32 != 0 {
 		w.Larger = int64(c02num(2 + nd.Choice(2)))
-		w.Smaller = int64(c02num(3 + nd.Choice(2)))
+		w.Smaller = int64(c02num(3 + nd.Choice(nd.Param("pw")-1)))
 	}
 	if mask&64 != 0 {
 		w.Not = []imap.SearchCriteria{c02sub(k)}
